@@ -4,6 +4,7 @@ import GufoSnmp.Driver.SessionCmd
 import GufoSnmp.Model.Socket
 import GufoSnmp.Model.PyClient
 import GufoSnmp.Model.Timing
+import GufoSnmp.Model.User
 import GufoSnmp.Model.Crypto.Md5
 import GufoSnmp.Model.Crypto.Sha1
 import GufoSnmp.Model.Crypto.Des
@@ -340,6 +341,17 @@ def handle (line : String) : String :=
         (PrivKey.new alg >>= fun k0 => k0.asLocalized key 0 >>= fun k1 =>
           k1.decrypt ciphers data ⟨[], boots, time, [], [], pp⟩)
     | _, _, _, _, _, _ => bad
+  | ["userkeys", name, aalg, akt, akey, palg, pkt, pkey] =>
+    let kt (x : String) : Option Py.KeyType :=
+      match x with | "0" => some .password | "1" => some .master | "2" => some .localized | _ => none
+    match parseHex name, kt akt, parseHex akey, kt pkt, parseHex pkey with
+    | some name, some akt, some akey, some pkt, some pkey =>
+      let auth : Option Py.Key := if aalg = "-" then none else (aalg.toNat?.map (fun a => Py.mkAuthKey a akey akt))
+      let priv : Option Py.Key := if palg = "-" then none else (palg.toNat?.map (fun a => Py.mkPrivKey a pkey pkt))
+      (match Py.mkUser name auth priv with
+       | none => "pyerr ValueError"
+       | some u => s!"ok {u.authAlg} {hex u.authKey} {u.privAlg} {hex u.privKey}")
+    | _, _, _, _, _ => bad
   | ["recvsched", mode, t, d, arrivals] =>
     let parseArr (x : String) : Option Timing.Arrival :=
       match x.splitOn ":" with
